@@ -7,6 +7,7 @@ From Piko Require Import Gossip.World GossipP.SortP GossipP.LocalP GossipP.Valid
      GossipP.MemberP GossipP.WorldInv GossipP.WorldConv GossipP.WorldRounds GossipP.RoundsExample.
 From Coq Require Import Permutation.
 From Piko Require Import Gossip.Round GossipP.RoundP.
+From Piko Require Import Gossip.DeltaVariants GossipP.DeltaVariantsP.
 Import ListNotations.
 Open Scope string_scope. Open Scope list_scope. Open Scope N_scope.
 
@@ -188,6 +189,17 @@ Example C03_ex_round :
   round_legal ex_round_state ["B:1"] = false.
 Proof. exact ex_round_rounds. Qed.
 
+(* "even when a packet can carry only part of the outstanding difference": the part has to be a VERSION PREFIX. The variant
+   that caps the number of entries while ranging over the map and sorts afterwards (seeded changes C03-12, C13-12) is
+   refuted: for a map order that lists the newest entry first the capped delta skips a version, and the observer applying it
+   reports the owner's version while it lacks the skipped key - nothing will ever ask for it again. *)
+Theorem C03_capped_delta_variant_refuted :
+  map e_key (de_ents (delta_entry_of dv_owner 0)) = ["a"; "b"; "c"] /\
+  map e_key (de_ents (delta_entry_capped 2 dv_owner 0)) = ["a"; "c"] /\
+  exists V, dv_apply (delta_entry_capped 2 dv_owner 0) = Some V /\ n_ver V = 3%N /\ lookup "b" (n_ents V) = None /\
+            lookup "b" (n_ents dv_owner) <> None.
+Proof. exact capped_variant_refuted. Qed.
+
 Print Assumptions C03_no_regress.
 Print Assumptions C03_progress.
 Print Assumptions C03_nonempty_when_fits.
@@ -205,3 +217,4 @@ Print Assumptions C03_round_reaches_every_live_peer.
 Print Assumptions C03_rounds_cover.
 Print Assumptions C03_round_targets_legal.
 Print Assumptions C03_ex_round.
+Print Assumptions C03_capped_delta_variant_refuted.
